@@ -7,7 +7,8 @@ Driver streams `C01`, `C02` (operation histories on `stree.Tree`) and `C02.limit
 
 Per line the model side runs `Model.Stree.step` (the function `C01_history` /
 `C02_depth` are about) and prints: result, Len, IsEmpty, Min, Max, three Gets, one
-InorderAfter, one stopped Inorder — all obtained through `step` — followed by the
+InorderAfter, one stopped Inorder, four stopped InorderAfter (consumer stops once it
+holds 0, 1, 2, 3 keys) — all obtained through `step` — followed by the
 comparator-call counts of the Gets, the height in edges, the `max` field and the
 pre-order shape with keys.  The spec side runs `Spec.SortedSet.step` and gives the verdict on
 the implementation's observation: `C01` on results and contents, `C02` on height and
@@ -68,7 +69,9 @@ def observe (q : Op Int → Out Int) (res : String) (r : Nat) (b : Int) : String
   let j := b.natAbs % 4
   s!"r={res};len={fmtOut (q (.len r))};empty={fmtOut (q (.isEmpty r))};min={fmtVal (q (.min r))};max={fmtVal (q (.max r))}" ++
   s!";get={g b} {g (b+1)} {g (b-10)};after={b+1}:{fmtOut (q (.inorderAfter r (b+1) none))}" ++
-  s!";stop={j}:{fmtOut (q (.inorder r (some j)))}"
+  s!";stop={j}:{fmtOut (q (.inorder r (some j)))}" ++
+  -- InorderAfter(b-10) with a consumer that stops once it holds 0, 1, 2, 3 keys (`inorderAfter_spec` covers `stop`)
+  s!";afterstop={b-10}:{" ".intercalate ((List.range 4).map fun js => fmtOut (q (.inorderAfter r (b-10) (some js))))}"
 
 /-- model-only part: comparator calls of the three Gets, height in edges, `max`, shape -/
 def observeShape (cmp : Int → Int → Ordering) (t : T Int) (b : Int) : String :=
